@@ -347,6 +347,12 @@ func (m *Monitors) onStore(rr *runRec, c *workflow.Record) {
 	}
 	m.writes = append(m.writes, *c)
 	m.entryWrite[w.outN] = [2]int{rr.ord, len(rr.versions) + 1}
+	// C16: whatever is stored is an object some function (or the caller of Trigger) produced, or the deletion marker: every one
+	// of those is well-formed; bytes that are not were garbled between the encoding and the Store call
+	if ObjToken(c.Object) == GarbageToken {
+		m.violate("C16", "object-hand-over", "stored-object-garbled via "+path,
+			fmt.Sprintf("run r%d: the record handed to Store carries %q, which is not the encoding of any object a function or a Trigger call produced", rr.ord, string(c.Object)))
+	}
 	if len(rr.versions) == 0 {
 		if c.Meta.Version != 1 {
 			m.violate("C16", "version-starts-at-1", "first-version-not-1", fmt.Sprintf("first write of a run has version %d", c.Meta.Version))
